@@ -30,6 +30,19 @@ def _normalise_tests(tree):
     `if not C: A else: B`  (two non-empty arms, B not an elif chain)  becomes  `if C: B else: A`, and `not not C` becomes
     C.  Which arm a programmer writes first is not a property of the program; rules are written against the positive
     form only."""
+    # `x: T = v` is the assignment `x = v` (annotations carry no behaviour): rules look at ast.Assign only
+    for parent in ast.walk(tree):
+        for field in ("body", "orelse", "finalbody"):
+            stmts = getattr(parent, field, None)
+            if isinstance(stmts, list):
+                for i, st in enumerate(stmts):
+                    if isinstance(st, ast.AnnAssign) and st.value is not None and st.simple:
+                        stmts[i] = ast.copy_location(ast.Assign(targets=[st.target], value=st.value, type_comment=None), st)
+        if isinstance(parent, ast.Try):
+            for h in parent.handlers:
+                for i, st in enumerate(h.body):
+                    if isinstance(st, ast.AnnAssign) and st.value is not None and st.simple:
+                        h.body[i] = ast.copy_location(ast.Assign(targets=[st.target], value=st.value, type_comment=None), st)
     for n in ast.walk(tree):
         if isinstance(n, (ast.If, ast.IfExp)):
             while isinstance(n.test, ast.UnaryOp) and isinstance(n.test.op, ast.Not) and isinstance(n.test.operand, ast.UnaryOp) and isinstance(n.test.operand.op, ast.Not):
